@@ -307,6 +307,8 @@ def make_key(recipe):
     """recipe: {"kty", "how": bytes|jwk|pem|der|generate, "data", "parameters"}"""
     cls = key_class(recipe["kty"])
     how, params = recipe["how"], recipe.get("parameters")
+    if how == "generate-via":
+        return gen_via(recipe["entry"], recipe["kty"], recipe["data"], recipe["form"], recipe.get("private"))[0]
     if how == "generate":
         return cls.generate_key(recipe["data"], params, private=recipe.get("private", True))
     if how == "jwk":
@@ -316,6 +318,49 @@ def make_key(recipe):
     if how == "pem":
         return cls.import_key(recipe["data"].encode("ascii"), params)
     raise ValueError(how)
+
+
+def gen_via(entry, kty, arg, form, flag, count=2):
+    """Keys from a generating entry point; the private flag is given positionally ("pos"), by
+    keyword ("kw") or omitted ("default")."""
+    from joserfc.jwk import JWKRegistry, KeySet
+    cls = key_class(kty) if kty in KIND else None
+    if entry == "class":
+        if form == "default":
+            return [cls.generate_key(arg)]
+        return [cls.generate_key(arg, None, flag)] if form == "pos" else [cls.generate_key(arg, private=flag)]
+    if entry == "registry":
+        if form == "default":
+            return [JWKRegistry.generate_key(kty, arg)]
+        return [JWKRegistry.generate_key(kty, arg, None, flag)] if form == "pos" else [JWKRegistry.generate_key(kty, arg, private=flag)]
+    if entry == "keyset":
+        if form == "default":
+            ks = KeySet.generate_key_set(kty, arg, count=count)
+        elif form == "pos":
+            ks = KeySet.generate_key_set(kty, arg, None, flag, count)
+        else:
+            ks = KeySet.generate_key_set(kty, arg, private=flag, count=count)
+        return list(ks.keys)
+    raise ValueError(entry)
+
+
+def generation_plan(ctx):
+    """(entry point, kty, size_or_crv, flag form, flag) over every generating entry point"""
+    rng = ctx.rng
+    plan = []
+    args = {"RSA": [1024], "EC": EC_CURVES, "OKP": OKP_CURVES, "oct": [128, 256]}
+    for kty in ("RSA", "EC", "OKP", "oct"):
+        for entry in ("class", "registry", "keyset"):
+            pick = (lambda: rng.choice(args[kty]))
+            plan.append((entry, kty, pick(), "default", True))
+            for form in ("pos", "kw"):
+                flags = [False, True] + ([None, 0, 1, ""] if not ctx.quick else [rng.choice([None, 0, 1, ""])])
+                for flag in flags:
+                    for arg in (args[kty] if (not ctx.quick and flag is False) else [pick()]):
+                        plan.append((entry, kty, arg, form, flag))
+    plan.append(("registry", "XYZ", 256, "kw", False))
+    plan.append(("keyset", "XYZ", "P-256", "pos", True))
+    return plan
 
 
 class Entry:
@@ -328,7 +373,7 @@ class Entry:
 
     def fresh(self):
         """a new key object from the same material (exports mutate: ensure_kid)"""
-        if self.recipe["how"] == "generate":
+        if self.recipe["how"].startswith("generate"):
             return self.key
         return make_key(self.recipe)
 
@@ -386,6 +431,12 @@ def build_zoo(ctx):
             native, True)
         add("%s-pub-der" % tag, kty, crv, {"kty": kty, "how": "der", "data": native_bytes(native, False, True).hex(), "parameters": None},
             native, True)
+        # a public-only key whose EXTRA parameters are named like private members: the filter is driven by
+        # the registry, not by is_private, so they are stripped from a public export as well
+        named = {"RSA": {"d": "caller-d", "qi": "caller-qi", "x-keep": "kept"}, "EC": {"d": "caller-d", "x-keep": "kept"},
+                 "OKP": {"d": "caller-d", "x-keep": "kept"}}[kty]
+        add("%s-pub-pem-params-named-private" % tag, kty, crv,
+            {"kty": kty, "how": "pem", "data": native_bytes(native, False, False).decode(), "parameters": named}, native, True)
         add("%s-pub-jwk" % tag, kty, crv,
             {"kty": kty, "how": "jwk", "data": json.dumps(native_jwk(kty, native, private=False)), "parameters": params()}, native, True)
 
@@ -470,6 +521,19 @@ def build_zoo(ctx):
         gp = OKPKey.generate_key(crv, private=False)
         add("okp-%s-generated-public" % crv, "OKP", crv, {"kty": "OKP", "how": "generate", "data": crv, "private": False, "parameters": None},
             None, True, key=gp)
+    # ---- every generating entry point x every form / value of the private flag
+    gen_records = []
+    for entry, kty, arg, form, flag in generation_plan(ctx):
+        r = call(gen_via, entry, kty, arg, form, flag)
+        gen_records.append((entry, kty, arg, form, flag, r))
+        if r[0] == "ok" and not flag and kty in KIND:
+            for j, k in enumerate(r[1]):
+                raw = k.raw_value
+                nat = raw if (kty != "oct" and hasattr(raw, "private_bytes")) else (raw if kty == "oct" else None)
+                add("gen-%s-%s-%s-%s-%r-%d" % (entry, kty, arg, form, flag, j), kty, arg if kty in ("EC", "OKP") else None,
+                    {"kty": kty, "how": "generate-via", "entry": entry, "data": arg, "form": form, "private": flag, "parameters": None},
+                    nat, True, key=k)
+    build_zoo.gen_records = gen_records
     return zoo, skipped
 
 
@@ -711,7 +775,7 @@ def epk_token_plan(ctx, zoo):
         return [x for x in cands if x.kty == e.kty and x.crv == e.crv and (private is None or x.public_only != private)]
 
     def static(e):      # recipes that rebuild the same key (a "generate" recipe would give another key)
-        return e.recipe["how"] != "generate"
+        return not e.recipe["how"].startswith("generate")
 
     def usable(e):      # declared use / key_ops allow key agreement
         d = e.key.dict_value
@@ -891,14 +955,17 @@ def run(ctx):
                 leak(e, name, found, out)
             # structural: no private member NAME in a JWK exported as public
             if name in ("as_dict(private=False)", "as_dict()", "as_dict(private=False, **params)", "as_dict(**params)"):
-                bad = [m for m in SPEC_PRIVATE[e.kty] if m in out and m not in CALLER_PARAMS]
+                # with the default flag the caller's own extra parameters (even if named like private members) stay
+                own = set() if "private=False" in name else set(e.recipe.get("parameters") or {})
+                bad = [m for m in SPEC_PRIVATE[e.kty] if m in out and m not in CALLER_PARAMS and m not in own]
                 if bad:
                     ctx.violation({"kind": "private-member-in-public-jwk", "kty": e.kty, "op": name, "member": bad[0]},
                                   "%s of key %s has private member(s) %s" % (name, e.name, bad),
                                   {"recipe": e.recipe, "op": name, "output": short(out, 2000)})
             if name.startswith("KeySet.as_dict("):
                 for d in out["keys"]:
-                    bad = [m for m in SPEC_PRIVATE[e.kty] if m in d]
+                    own = set() if "private=False" in name else set(e.recipe.get("parameters") or {})
+                    bad = [m for m in SPEC_PRIVATE[e.kty] if m in d and m not in own]
                     if bad:
                         ctx.violation({"kind": "private-member-in-public-jwk", "kty": e.kty, "op": name, "member": bad[0]},
                                       "%s of key %s has private member(s) %s" % (name, e.name, bad),
@@ -917,6 +984,13 @@ def run(ctx):
                     ctx.violation({"kind": "public-bytes-differ", "kty": e.kty, "op": name},
                                   "%s of key %s is not the SubjectPublicKeyInfo of the native public key: %s" % (name, e.name, short(out)),
                                   {"recipe": e.recipe, "op": name, "output": short(out, 2000)})
+        if e.recipe["how"] == "generate-via" and e.key.is_private:
+            ctx.violation({"kind": "public-only-request-returns-private-key", "kty": e.kty, "entry": e.recipe["entry"]},
+                          "%s(%s, %r, private=%r given %s) returned a key with is_private = True" % (
+                              {"class": "<KeyClass>.generate_key", "registry": "JWKRegistry.generate_key",
+                               "keyset": "KeySet.generate_key_set"}[e.recipe["entry"]], e.kty, e.recipe["data"], e.recipe["private"],
+                              {"pos": "positionally", "kw": "by keyword"}.get(e.recipe["form"], e.recipe["form"])),
+                          {"recipe": e.recipe, "op": "as_dict(private=True)"})
         # private export requested from a public-only key is an error
         if e.public_only:
             for name, thunk in must_raise_ops(e).items():
@@ -952,6 +1026,25 @@ def run(ctx):
     def key_tuple(k, d):
         return "(%s, %s, %s)" % (KIND[k.key_type], c_bool(k.is_private if k.key_type != "oct" else True), c_kd(d))
 
+    for entry, kty, arg, form, flag, r in build_zoo.gen_records:
+        en = {"class": "GClass", "registry": "GRegistry" if kty in KIND else "GRegistryUnknown",
+              "keyset": "(GKeySet 2%nat)" if kty in KIND else None}[entry]
+        if en is None:          # key set of an unknown key type: same refusal as the registry call, one key at a time
+            en = "GRegistryUnknown"
+        kk = KIND.get(kty, "KOct")
+        model_flag = True if form == "default" else flag
+        exp = c_res(r, lambda ks: c_list(c_bool(k.is_private) for k in ks))
+        add("CGen %s %s %s %s" % (en, kk, c_pv(model_flag), exp), ("generate", entry, kty, arg, form, flag))
+        ctx.note_case(("generate", entry, kty, arg, form, repr(flag)))
+        dist["generate_cases"] = dist.get("generate_cases", 0) + 1
+        if r[0] == "ok" and kty in KIND:
+            want_private = bool(model_flag) or kty == "oct"
+            for k in r[1]:
+                if k.is_private and not want_private:     # (the converse is not a leak: left to the correspondence)
+                    ctx.violation({"kind": "public-only-request-returns-private-key", "kty": kty, "entry": entry},
+                                  "%s %s %r: private flag %r (%s) gave is_private = %r" % (entry, kty, arg, flag, form, k.is_private),
+                                  {"recipe": {"kty": kty, "how": "generate-via", "entry": entry, "data": arg, "form": form, "private": flag,
+                                              "parameters": None}, "op": "as_dict(private=True)"})
     for kty in KIND:
         cls = key_class(kty)
         flags = [(n, bool(p.private), bool(p.required)) for n, p in cls.value_registry.items()]
@@ -1201,8 +1294,11 @@ def replay(path):
     rec = r["recipe"]
     key = make_key(rec)
     nat = key.private_key if rec["kty"] != "oct" else key.raw_value
-    e = Entry("replay", rec["kty"], rec.get("data") if rec["how"] == "generate" else getattr(key, "curve_name", None),
-              rec, nat, not key.is_private, key=key)
+    requested_public = rec["how"].startswith("generate") and "private" in rec and not rec["private"]
+    e = Entry("replay", rec["kty"], rec.get("data") if rec["how"].startswith("generate") else getattr(key, "curve_name", None),
+              rec, nat, requested_public or not key.is_private, key=key)
+    if requested_public:
+        print("key requested public-only; is_private =", key.is_private)
     if e.kty == "oct":
         e.native = key.raw_value
     ops = dict(all_ops(e))
